@@ -188,6 +188,19 @@ def hexDigit (n : Nat) : Char := if n < 10 then Char.ofNat (48 + n) else Char.of
 def encodeHex (s : String) : String :=
   String.ofList (s.toUTF8.toList.flatMap fun b => [hexDigit (b.toNat / 16), hexDigit (b.toNat % 16)])
 
+def tkName : TK → String
+  | .ident => "Identifier" | .label => "Label" | .number => "Number" | .fixedNumber => "FixedNumber"
+  | .lbracket => "LBracket" | .rbracket => "RBracket" | .lparen => "LParen" | .rparen => "RParen"
+  | .lcurly => "LCurly" | .rcurly => "RCurly" | .equals => "Equals" | .slash => "ForwardSlash"
+  | .percent => "Percent" | .comma => "Comma" | .colon => "Colon" | .excl => "Exclamation"
+
+/-- `tok <flags> <hex>`: the token stream (class names; text of identifiers and labels) -/
+def tokReply (fl : String) (input : String) : String :=
+  match tokenize (flagsOf fl).guard input.toList with
+  | .ok ts => "ok " ++ ",".intercalate (ts.map fun t =>
+      if t.kind = .ident ∨ t.kind = .label then tkName t.kind ++ ":" ++ encodeHex t.text else tkName t.kind)
+  | .error e => "err " ++ e.name
+
 /-- `cli filt f,f,… m,m,… low high i,i,…` / `cli ident <hex>` -/
 def cliReply (a : List String) : String :=
   match a with
@@ -560,6 +573,8 @@ def step (st : DState) (line : String) : DState × String :=
   match line.splitOn " " with
   | ["cdc", fl, hex] => (st, cdcReply fl (decodeHex hex))
   | ["cdc", fl] => (st, cdcReply fl "")
+  | ["tok", fl, hex] => (st, tokReply fl (decodeHex hex))
+  | ["tok", fl] => (st, tokReply fl "")
   | "ds" :: args => dsStep st args
   | "pa" :: args => paStep st args
   | "reg" :: args => regStep st args
